@@ -44,7 +44,8 @@ PROBES = ["resize_during_cell_size_query", "toggle_then_get_at_unchanged_size", 
           "reenable_queries_discards_disabled_results", "dynamic_ratio_follows_resize",
           "fixed_ratio_survives_resize", "memo_body_once", "terminal_size_cached_recomputed",
           "concurrent_first_calls", "task_waited_on_memo_lock", "auto_ratio_unsupported",
-          "resize_back_to_earlier_size", "enable_queries_races_with_first_call"]
+          "resize_back_to_earlier_size", "enable_queries_races_with_first_call",
+          "swap_toggle_races_with_cell_size_calls"]
 COMPONENTS = {
     "real": ["term_image.utils.get_cell_size / cached / terminal_size_cached / "
              "get_fg_bg_colors / get_terminal_name_version", "term_image.enable/disable_queries, "
@@ -376,6 +377,12 @@ def run_concurrent(ch, ctx, fault):
             # obtained while they were disabled" - whatever the interleaving, once both have
             # finished nothing obtained while disabled may be served any more
             enable_race = which != "memo" and ch.bool("enable_race", 0.35)
+            # the win-size-swap toggle racing with cell-size computations
+            swap_race = which == "cell" and not enable_race and ch.bool("swap_race", 0.4)
+            if swap_race:
+                ctx.probe("swap_toggle_races_with_cell_size_calls")
+                if ch.bool("warm", 0.5):
+                    utils.get_cell_size()
             if enable_race:
                 ti.disable_queries()
                 if ch.bool("call_while_disabled", 0.5):
@@ -391,10 +398,14 @@ def run_concurrent(ch, ctx, fault):
             k.tasks = []
             k.aborting = False
 
-            def body(j, which=which, args=args, got=got, enable_race=enable_race):
+            def body(j, which=which, args=args, got=got, enable_race=enable_race,
+                     swap_race=swap_race):
                 if enable_race and j == 0:
                     ti.enable_queries()
                     got[j] = "enable_queries()"
+                elif swap_race and j == 0:
+                    (ti.disable_win_size_swap if model.swap else ti.enable_win_size_swap)()
+                    got[j] = "toggle win-size swap"
                 elif which == "memo":
                     got[j] = memo(args[j])
                 elif which == "colors":
@@ -418,8 +429,21 @@ def run_concurrent(ch, ctx, fault):
             ctx.op("round %d: %d tasks first-call %s%r -> %r (%d queries sent, %d switches)"
                    % (rnd, ntasks, which, args, [got.get(j) for j in range(ntasks)], writes,
                       k.switches))
-            results.append((which, args, writes, enable_race))
-            if enable_race:
+            results.append((which, args, writes, enable_race, swap_race))
+            if swap_race:
+                model.set_swap(not model.swap)
+                check(bool(utils._swap_win_size) == model.swap, "swap_flag_not_toggled", {},
+                      "concurrent.swap")
+                if tty.last_reply_at > k.now:
+                    k.advance(tty.last_reply_at - k.now)
+                tty.inq.clear()
+                g = utils.get_cell_size()
+                g = g and tuple(g)
+                check(g == model.fresh_cell(), "cell_size_computed_under_old_swap_setting_survives",
+                      {"got": g, "fresh": model.fresh_cell(), "swap": model.swap,
+                       "tasks": [got.get(j) and tuple(got[j]) if j else got.get(j)
+                                 for j in range(ntasks)]}, "concurrent.swap")
+            elif enable_race:
                 check(utils._queries_enabled, "queries_not_enabled", {}, "concurrent.enable")
                 if tty.last_reply_at > k.now:
                     k.advance(tty.last_reply_at - k.now)
